@@ -1,35 +1,34 @@
 package codegen
 
 import (
+	"fmt"
 	"strconv"
 
 	"github.com/HobbyOSs/gosk/pkg/ocode"
 )
 
-func handleINT(ocode ocode.Ocode) []byte {
+func handleINT(ocode ocode.Ocode) ([]byte, error) {
 	// INT命令は2バイトの命令
 	// 1バイト目: 0xCD (INT命令のオペコード)
 	// 2バイト目: 割り込み番号
-	binary := []byte{0xCD}
-
-	// 割り込み番号を取得
 	if len(ocode.Operands) != 1 {
-		panic("INT instruction requires one operand")
+		return nil, fmt.Errorf("INT instruction requires one operand, got %d", len(ocode.Operands))
 	}
 
-	// 0xを除去して16進数として解析
+	// pass1 は評価済みの数値を10進文字列で渡す (0x 形式も許容)
 	intNum := ocode.Operands[0]
-	if len(intNum) > 2 && intNum[:2] == "0x" {
+	base := 10
+	if len(intNum) > 2 && (intNum[:2] == "0x" || intNum[:2] == "0X") {
 		intNum = intNum[2:]
+		base = 16
 	}
-	// Parse as decimal (base 10)
-	num, err := strconv.ParseInt(intNum, 10, 8) // Change base to 10
+	num, err := strconv.ParseInt(intNum, base, 64)
 	if err != nil {
-		panic("Failed to parse INT number (decimal): " + err.Error()) // Update panic message
+		return nil, fmt.Errorf("failed to parse INT number %q: %v", ocode.Operands[0], err)
+	}
+	if num < -128 || num > 255 {
+		return nil, fmt.Errorf("INT number %d out of range", num)
 	}
 
-	// 割り込み番号を追加
-	binary = append(binary, byte(num))
-
-	return binary
+	return []byte{0xCD, byte(num)}, nil
 }
